@@ -90,6 +90,16 @@ def mc_cfg(I, N, inv, sim=False, mut=None):
     return mc, cfg
 
 
+MUT_QUICK = {
+    "pavgp-ih/orth-eps2": ["A-without-U", "useful-swapped", "cover-swapped", "dom-swapped"],
+    "pavgp-ih/acute": ["A-without-U", "useful-swapped", "cover-swapped", "dom-corner"],
+    "partial-rect/orth-eps2": ["A-without-U", "useful-swapped", "cover-swapped", "dom-swapped"],
+    "paveba/orth": ["A-without-U", "useful-swapped", "cover-swapped", "dom-swapped"],
+    "vogp/obtuse": ["cover-from-pess", "cover-from-S", "pess-over-S", "pdom-swapped"],
+    "vogp/acute-g3": ["cover-from-pess", "cover-from-S", "pess-over-S", "pdom-swapped", "dom-corner"],
+    "vogp/orth-eps2": ["disc-all-S", "pess-over-S", "pdom-swapped"],
+    "epal/orth-eps2": ["disc-all-S", "pess-over-S", "pdom-swapped"],
+}
 MUTANTS = {"vogp": ["cover-from-pess", "cover-from-S", "disc-witness-any", "disc-all-S", "pess-over-S", "pdom-swapped", "dom-corner"],
            "paveba": ["A-without-U", "useful-from-U", "useful-swapped", "cover-swapped", "dom-swapped", "newU-in-cover", "disc-witness-P", "cover-from-P", "dom-corner"],
            "auer": ["auer-p1-strict", "auer-no-holdback", "auer-holdback-all"]}
@@ -321,7 +331,9 @@ def run_prop(ctx, prop):
                 return name, mut, None
             raise
 
-    todo = [(name, I, N, m) for (name, I, N) in mutjobs for m in MUTANTS[I["Fam"]]]
+    # quick tier: only the (instantiation, mutant) pairs known to be distinguishable on that lattice (TLC stops at the first
+    # difference); the thorough tier also re-establishes which mutants are equivalent there (full exploration each)
+    todo = [(name, I, N, m) for (name, I, N) in mutjobs for m in MUTANTS[I["Fam"]] if thorough or m in MUT_QUICK.get(name, MUTANTS[I["Fam"]])]
     killed = {}
     with cf.ThreadPoolExecutor(max_workers=6) as ex:
         for name, mut, res in ex.map(mut_search, todo):
